@@ -344,3 +344,174 @@ pub extern "C" fn c15_weak_container() {
     vassert(Arc::weak_count(&t2) == 0 && Arc::strong_count(&t2) == 1, 8);
     cover(1);
 }
+
+// ------------------------------------------------------------------------------------ C10 / C11
+
+/// C10/C11: guards created on thread 1 survive the exit of thread 1, the re-use of its
+/// bookkeeping by a new thread, being dropped on another thread, and the container going away.
+#[no_mangle]
+pub extern "C" fn c10_seq_threads() {
+    // the container is the ONLY owner of its values: a guard that is not honoured dangles
+    let c = ArcSwap::from_pointee(1u64);
+    let first = Arc::as_ptr(&c.load_full()) as usize;
+    on_thread(2, || drop(c.load())); // thread 2 owns a node of its own from the start
+    let n = nondet(1) as usize;
+    assume(n <= 10);
+    let mut gs: [Option<Guard<Arc<u64>>>; 10] = [None, None, None, None, None, None, None, None, None, None];
+    on_thread(1, || {
+        let mut i = 0;
+        while i < n {
+            gs[i] = Some(c.load());
+            i += 1;
+        }
+    });
+    let order = nondet(2);
+    assume(order < 4);
+    // the creating thread exits while its guards live on
+    thread_exit(1);
+    if order & 1 == 1 {
+        // a newly started thread re-claims the bookkeeping of thread 1 (first use of the crate)
+        on_thread(3, || {
+            let g = c.load();
+            vassert(**g == 1, 1);
+        });
+    }
+    if order & 2 == 2 {
+        // the value is replaced by a thread that owns another node
+        on_thread(2, || c.store(Arc::new(2)));
+    }
+    // the guards are dropped on thread 2, in reverse order; each still denotes the very same live value
+    on_thread(2, || {
+        let mut i = 10;
+        while i > 0 {
+            i -= 1;
+            if let Some(g) = gs[i].take() {
+                vassert(**g == 1 && Arc::as_ptr(&g) as usize == first, 2);
+                drop(g);
+            }
+        }
+    });
+    vassert(slots_all_empty(), 3);
+    let last = c.into_inner();
+    vassert(*last == if order & 2 == 2 { 2 } else { 1 }, 4);
+    vassert(Arc::strong_count(&last) == 1, 5);
+    cover(1);
+}
+
+extern "C" {
+    /// number of nodes in the global list (IR: counted by the engine; native: node_snapshot().len())
+    pub fn verif_node_count() -> u64;
+}
+
+/// C11: thread churn. Threads start, use the container, exit; bookkeeping is re-used: the number
+/// of nodes never exceeds the peak number of threads alive at once.
+#[inline(always)]
+fn churn(steps: u32) {
+    let c = ArcSwap::from_pointee(5u64);
+    let mut alive = [false; 4];
+    let mut peak = 0u64;
+    let mut step = 0;
+    while step < steps {
+        let t = nondet(10 + step) as usize;
+        let what = nondet(20 + step);
+        assume(t >= 1 && t <= 3 && what < 3);
+        match what {
+            0 => {
+                // thread t (starting if need be) reads
+                on_thread(t as u32, || vassert(**c.load() == 5, 1));
+                alive[t] = true;
+            }
+            1 => {
+                // thread t writes
+                on_thread(t as u32, || c.store(Arc::new(5)));
+                alive[t] = true;
+            }
+            _ => {
+                if alive[t] {
+                    thread_exit(t as u32);
+                    alive[t] = false;
+                }
+            }
+        }
+        let now = alive.iter().filter(|a| **a).count() as u64;
+        if now > peak {
+            peak = now;
+        }
+        vassert(unsafe { verif_node_count() } <= peak, 2);
+        step += 1;
+    }
+    cover(1);
+}
+/// C11: operations executed while the thread is shutting down (thread-local storage already torn
+/// down) still work, leave nothing behind and do not grow the list.
+#[no_mangle]
+pub extern "C" fn c11_shutdown_ops() {
+    let pool: [Arc<u64>; 2] = [Arc::new(1), Arc::new(2)];
+    let c = ArcSwap::new(pool[0].clone());
+    on_thread(1, || drop(c.load()));
+    let nodes = unsafe { verif_node_count() };
+    let what = nondet(1);
+    assume(what < 3);
+    on_dying_thread(1, || match what {
+        0 => vassert(**c.load() == 1, 1),
+        1 => c.store(pool[1].clone()),
+        _ => {
+            let old = c.swap(pool[1].clone());
+            vassert(*old == 1, 2);
+        }
+    });
+    vassert(slots_all_empty(), 3);
+    // the temporary node is the thread's old one or a re-used one: no growth
+    vassert(unsafe { verif_node_count() } == nodes, 4);
+    // a new thread finds everything in order and re-uses the bookkeeping
+    on_thread(2, || {
+        let v = c.load_full();
+        vassert(*v == if what == 0 { 1 } else { 2 }, 5);
+    });
+    vassert(unsafe { verif_node_count() } == nodes, 6);
+    drop(c);
+    vassert(Arc::strong_count(&pool[0]) == 1 && Arc::strong_count(&pool[1]) == 1, 7);
+    cover(1);
+}
+
+#[no_mangle]
+pub extern "C" fn c11_churn_3() {
+    churn(3);
+}
+#[no_mangle]
+pub extern "C" fn c11_churn_4() {
+    churn(4);
+}
+
+/// C17 across threads: a projection guard loaded on a thread that then exits keeps its snapshot
+/// alive over a store made by another thread; sole ownership by the container.
+#[no_mangle]
+pub extern "C" fn c17_access_threads() {
+    let shared = Arc::new(ArcSwap::new(mk(0)));
+    on_thread(2, || drop(shared.load()));
+    let depth = nondet(1);
+    assume(depth < 3);
+    let m1 = Map::new(&*shared, |o: &Outer| &o.inner);
+    let m2 = Map::new(&m1, |i: &Inner| &i.v);
+    let dynz: Box<dyn DynAccess<u64> + Sync> = Box::new(Map::new(shared.clone(), |o: &Outer| &o.z));
+    let (g1, g2, g3) = on_thread(1, || match depth {
+        0 => (Some(Access::load(&m1)), None, None),
+        1 => (None, Some(Access::load(&m2)), None),
+        _ => (None, None, Some(DynAccess::load(&*dynz))),
+    });
+    thread_exit(1);
+    on_thread(2, || shared.store(mk(1)));
+    if let Some(g) = &g1 {
+        vassert(g.v == 10 && g.w == 20, 1);
+    }
+    if let Some(g) = &g2 {
+        vassert(**g == 10, 2);
+    }
+    if let Some(g) = &g3 {
+        vassert(**g == 30, 3);
+    }
+    vassert(*Access::load(&m2) == 11, 4);
+    drop((g1, g2, g3));
+    vassert(slots_all_empty(), 5);
+    cover(1);
+}
